@@ -278,14 +278,14 @@ theorem Inv.cacheMap {c : Cfg} {s0 s : St} (i : Inv c s0 s) : Inv c s0 (cacheMap
       have hne := refs_nonempty hr
       simp only [Bool.not_eq_true', List.any_eq_false] at hp
       have := hp { path := d.path
-                   args := (s.dom.filter fun a => !(c.filesOf a).isEmpty).filter (fun a => refs c a d.path)
-                   size := d.size, count := 1 } (by
+                   args := (s.dom.filter fun a => !(c.filesOf a).isEmpty).filter (fun a => refsN c a (d.path :: d.alts))
+                   size := d.size, count := 1, names := d.path :: d.alts } (by
         unfold cacheEntries
         simp only [List.mem_map, List.mem_filter]
         exact ⟨d, ⟨hd, by simp [ht]⟩, rfl⟩)
       apply this
       simp only [List.contains_iff_mem, List.mem_filter]
-      exact ⟨⟨hdom, by simp [hne]⟩, hr⟩
+      exact ⟨⟨hdom, by simp [hne]⟩, anyOverlap_cons_mono _ _ _ hr⟩
   refine i2.setCache _ ?_
   intro e he
   unfold cacheEntries at he
@@ -295,7 +295,7 @@ theorem Inv.cacheMap {c : Cfg} {s0 s : St} (i : Inv c s0 s) : Inv c s0 (cacheMap
   intro a ha hr
   have hdom : a ∈ s.dom := (mem_dom_iff s a).mpr (f1.dom a (f2.dom a ha))
   simp only [List.mem_filter]
-  exact ⟨⟨hdom, by simp [refs_nonempty hr]⟩, hr⟩
+  exact ⟨⟨hdom, by simp [refs_nonempty hr]⟩, anyOverlap_cons_mono _ _ _ hr⟩
 
 
 /-- one phase of temp cleaning -/
